@@ -16,10 +16,10 @@ TECHNIQUE = {
     "C04": "runtime monitoring: description->expectation oracle with an independent INI line reader over hostile-but-representable treeinfo/discinfo content",
     "C05": "runtime monitoring: down-converted documents of every older version + shipped fixtures, facts/idempotence monitors on the upgrade cycle",
     "C06": "runtime monitoring: single-field object corruption at arbitrary positions from a documented invalid table; validator-level raise counters (wrapped from outside)",
-    "C07": "runtime monitoring: single document corruption (value / foreign type / mangled version / missing key) fed through loads / load(path) / load(file object); rejection oracle (declared coercion slots may normalise)",
+    "C07": "runtime monitoring: single document corruption (value / foreign type / mangled version / missing key) fed through loads / load(path) / load(file object) / Compose(dir).<accessor> asked twice; rejection oracle (declared coercion slots may normalise)",
     "C08": "runtime monitoring: digests of dumps across construction-order permutations, interpreter processes and PYTHONHASHSEED values; canonical-form readers",
-    "C09": "runtime monitoring: history + executable sequential model + invariant walk after every add, four header situations, colliding documents",
-    "C10": "runtime monitoring: architecture-class add sweeps with before/after snapshots; conversion conservation oracle on legacy documents with src entries",
+    "C09": "runtime monitoring: history + executable sequential model + invariant walk after every add / del / load-into-non-empty, several header situations, colliding documents (also with source images under src)",
+    "C10": "runtime monitoring: architecture-class add sweeps (fresh objects, objects / calls already accepted, builders that refused an older document) with before/after snapshots; conversion conservation oracle on legacy documents with src entries",
     "C11": "runtime monitoring: history + reference forest model + global invariant walk after every add; exhaustive query matrix; per-case stall guard",
     "C12": "runtime monitoring: add histories with valid/invalid/doubly-invalid arguments compared step by step with an executable model (state after refusals included)",
     "C13": "runtime monitoring: by-construction oracle over generated NEVRA strings (millions of cases), fixed-point and Rpms.add key monitors",
